@@ -26,7 +26,7 @@ def r1_snapshots(ctx):
              'NestedBlueprint arm of the component loop from a clone of the chain taken in that arm.')
     chain_only_pushed(ctx, 'C05.R1')
     chain_snapshots(ctx, 'C05.R1', 'current_middleware_chain', 'middleware chain')
-    chain_always_pushed(ctx, 'C05.R1', ['process_middleware', 'process_pre_processing_middleware', 'process_post_processing_middleware'], 'middleware chain')
+    chain_always_pushed(ctx, 'C05.R1', ['WrappingMiddleware', 'PreProcessingMiddleware', 'PostProcessingMiddleware'], 'middleware chain')
 
 
 def r2_chain_per_handler(ctx):
